@@ -4,6 +4,7 @@ import Rdpgw.Props.C04
 import Rdpgw.Props.C15
 import Rdpgw.Props.C13
 import Rdpgw.Props.C05
+import Rdpgw.Props.C18
 
 /-! Oracle commands for policy and tokens: `checkhost`, `installed`, `clientaddr`, `cookie`. -/
 
@@ -117,5 +118,26 @@ def cmdRoute (m : List (String × String)) : String :=
   | .unauthorized cs => "401:" ++ ",".intercalate (cs.map chs)
   | .notFound => "404"
   | .serverError => "500"
+
+end Rdpgw.Oracle
+
+namespace Rdpgw.Oracle
+
+open Rdpgw Rdpgw.Config in
+/-- `startup openid= kerberos= basic= ntlm= tlsoff= signed= tokenauth= usertoken= keytab=<hex> qkey=<hex> hosts=<n>
+    paaenc=<len> paasign=<len> userenc=<len> sesskey=<len> sessenc=<len>` → `refused:<why>` or `running` with which keys are fresh -/
+def cmdStartup (m : List (String × String)) : String :=
+  let k (name : String) : Bytes := List.replicate (getNat m name) 120
+  let r : Raw :=
+    { openid := getBool m "openid", kerberos := getBool m "kerberos", basic := getBool m "basic", ntlm := getBool m "ntlm",
+      tlsDisabled := getBool m "tlsoff", hostSelectionSigned := getBool m "signed", tokenAuth := getBool m "tokenauth",
+      enableUserToken := getBool m "usertoken", keytab := getHex m "keytab", queryTokenSigningKey := getHex m "qkey",
+      hosts := getNat m "hosts", paaEncKey := k "paaenc", paaSignKey := k "paasign", userEncKey := k "userenc",
+      sessionKey := k "sesskey", sessionEncKey := k "sessenc" }
+  let rnd : Nat → Bytes := fun i => List.replicate 32 (UInt8.ofNat (65 + i))
+  match startup r rnd with
+  | .refused _ => "refused"
+  | .running e =>
+    s!"running freshsign={b01 (e.paaSignKey == rnd 1)} freshenc={b01 (e.paaEncKey == rnd 0)} freshsess={b01 (e.sessionKey == rnd 3)} freshsessenc={b01 (e.sessionEncKey == rnd 4)}"
 
 end Rdpgw.Oracle
